@@ -688,6 +688,7 @@ func c19RunT(c *c19Case, limit time.Duration) {
 }
 
 var c19Subs = []string{"a", "b", "c"}
+
 // Event.Kind is an int64 and the property quantifies over all histories: beside kinds of the
 // NIP-01 range (0..65535, with both ends) the universe holds kinds outside of it that agree
 // with a smaller member modulo 2^16 or 2^32 (what a narrower integer would keep of them), and
